@@ -1,5 +1,72 @@
+import Rigo.EvmSync
 import RigoDriver.Util
+open Rigo.EvmSync
+
+/-
+  Line protocol of the C17 sync-protocol model (one output line per input line).  The input is the
+  event sequence of the real `StateDBWrapper` (verifhook.Trace), one wrapper lifetime per `reset`:
+
+    reset                      new wrapper (BeginBlock / after Commit)
+    snapshot <n>               `Snapshot()` (n = the id the real code got; informational)
+    access <addr>              `addAccessedObjAddr` on an address that the real code synced in
+    revert <id>                `RevertToSnapshot(id)`
+    finish                     `Finish()`
+    finalise                   go-ethereum `Finalise(true)` (success path of ExecuteTrx)
+    write <addr> <bal> <nonce> an EVM balance / nonce change (not produced by the stream: the
+                               interpreter's writes are not traced)
+    native <addr> <bal> <nonce> a native-ledger change between transactions (likewise)
+
+  Output: the model's reaction followed by the discipline phase reached:
+    `snap <id>` | `tag <n>` | `noop` | `unsync <a,b,c|->` | `panic <a,b,c|->` | `syncout <a,b,c|->` | `ok`
+    then ` idle` | ` tx:<snap>` | ` failed` | ` done` | ` undisciplined` (sticky until `reset`).
+-/
 namespace RigoDriver.EvmSync
-/-- stub: replaced by the component's line-protocol driver -/
-def run : IO Unit := pure ()
+
+structure DSt where
+  st : St := {}
+  phase : Option Phase := some .idle
+
+def showList (l : List String) : String := if l.isEmpty then "-" else ",".intercalate l
+
+def showOut : Out → String
+  | .snap id => s!"snap {id}"
+  | .tag n => s!"tag {n}"
+  | .noop => "noop"
+  | .unsync l => "unsync " ++ showList l
+  | .panic l => "panic " ++ showList l
+  | .syncout l => "syncout " ++ showList l
+  | .ok => "ok"
+
+def showPhase : Option Phase → String
+  | some .idle => "idle"
+  | some (.tx n) => s!"tx:{n}"
+  | some .failed => "failed"
+  | some .done => "done"
+  | none => "undisciplined"
+
+def parseOp : List String → Option Op
+  | ["snapshot", n] => n.toNat?.map (fun _ => .snapshot)
+  | ["snapshot"] => some .snapshot
+  | ["access", a] => some (.access a)
+  | ["revert", id] => id.toNat?.map .revert
+  | ["finish"] => some .finish
+  | ["finalise"] => some .finalise
+  | ["write", a, b, n] => do pure (.write a (← b.toNat?, ← n.toNat?))
+  | ["native", a, b, n] => do pure (.native a (← b.toNat?, ← n.toNat?))
+  | _ => none
+
+def stepLine (d : DSt) (ws : List String) : DSt × Option String :=
+  match ws with
+  | ["reset"] => ({}, some "reset")
+  | _ =>
+    match parseOp ws with
+    | none => (d, some "bad-op")
+    | some op =>
+      let ph := d.phase.bind (fun p => discStep p d.st op)
+      let (st', o) := step d.st op
+      ({ st := st', phase := ph }, some (showOut o ++ " " ++ showPhase ph))
+
+def run : IO Unit := do
+  RigoDriver.loop (← IO.getStdin) (← IO.getStdout) ({} : DSt) stepLine
+
 end RigoDriver.EvmSync
